@@ -99,14 +99,15 @@ structure Definition where
   isAsync : Bool
   deriving Repr
 
-def positions (f : FuncSrc) (args : List (String × Ty)) : List Pos :=
-  f.params.zipIdx.map (fun pi => { src := pi.1.src, traced := args.lookup pi.1.name, isSelf := f.kind.hasSelf && pi.2 == 0 })
+/-- what `update_signature_args` looks at for the parameter `p` at index `i` -/
+def posOf (f : FuncSrc) (args : List (String × Ty)) (p : SrcParam) (i : Nat) : Pos :=
+  { src := p.src, traced := args.lookup p.name, isSelf := f.kind.hasSelf && i == 0 }
 
 /-- `get_updated_definition(func, traces, k, rewriter, strategy)`: merge per position, rewrite, combine with the source -/
 def updatedDefinition (h : Hier) (chain : List RW) (k : Nat) (st : Strategy) (f : FuncSrc) (traces : List CTrace) : Definition :=
   let s := shrinkTraced k traces
   let args := s.1.map (fun nt => (nt.1, rewriteChain h chain nt.2))
-  { params := (f.params.map (·.name)).zip (updateArgs st (positions f args)),
+  { params := f.params.zipIdx.map (fun pi => (pi.1.name, updateArg st (posOf f args pi.1 pi.2))),
     ret := updateReturn st f.retSrc (s.2.1.map (rewriteChain h chain)) (s.2.2.map (rewriteChain h chain)),
     kind := f.kind, isAsync := f.isAsync }
 
